@@ -2,8 +2,8 @@ SPECIFICATION Spec
 CONSTANTS
   Dev = {}
   MaxCalls = 3
-  Classes = FALSE
-  MaxOps = 4
+  Classes = TRUE
+  MaxOps = 5
 INVARIANTS Complete NoUseLeft SuccsLive WriteLive
 PROPERTIES WriteExact
 VIEW View
